@@ -72,6 +72,54 @@ def _lexer_keywords() -> Set[str]:
     return _KW
 
 
+def _identifier_membership_observed(prog, kw):
+    """Lexer.parse_identifier run by the lexer simulation (sa/lexsim.py) on every keyword spelling and on near misses
+    (a letter / digit / underscore added in front or behind, other case) and on ordinary names: the token is the keyword's
+    kind iff the WHOLE maximal identifier run is a key of `keywords`, else IDENTIFIER carrying the spelling.
+    -> (True/False, why) or (None, reason) when the method cannot be simulated."""
+    try:
+        from ..lexsim import LexerSim
+        from ..minieval import Unsupported
+    except ImportError as e:
+        return None, str(e)
+    samples = []
+    for s_ in sorted(k for k in kw if isinstance(k, str)):
+        samples += [s_, s_ + "x", "x" + s_, s_ + "_", "_" + s_, s_ + "1", s_.swapcase(), s_ + s_]
+    samples += ["foo", "main", "ft_strlen", "g_count", "t_list", "s_node", "x", "_", "__attribute__", "environ", "defined", "A1_b2"]
+    # every spelling the method itself mentions (a literal, or an element of a table it reads), in both cases
+    pi = prog.method("Lexer", "parse_identifier")
+    mentioned = set()
+    for n_ in walk_fn(pi.node):
+        v = None
+        if isinstance(n_, ast.Constant) and isinstance(n_.value, str):
+            v = [n_.value]
+        elif isinstance(n_, ast.Name) and isinstance(n_.ctx, ast.Load) and n_.id != "keywords":
+            v = fold_in_fn(n_, pi, default=None)
+            v = list(v) if isinstance(v, (tuple, list, set, frozenset, dict)) else [v] if isinstance(v, str) else None
+        for x in v or []:
+            if isinstance(x, str) and x.isidentifier() and x not in kw:
+                mentioned |= {x, x.upper(), x.lower(), x.capitalize()}
+    samples += sorted(mentioned)
+    bad = []
+    try:
+        for i_, v in enumerate(samples):
+            if not (v[0].isalpha() or v[0] == "_"):
+                continue
+            for tail in ((" ;", "(", "\n", "") if i_ % 16 == 0 else (" ;",)):
+                out = LexerSim(prog, v + tail).call("parse_identifier")
+                if out.kind != "ok" or out.value is None:
+                    bad.append(f"`{v}`: {out!r}")
+                    break
+                tok = out.value
+                want = (kw[v], None) if v in kw else ("IDENTIFIER", v)
+                if (getattr(tok, "type", None), getattr(tok, "value", None)) != want:
+                    bad.append(f"`{v}` gives <{getattr(tok, 'type', None)} {getattr(tok, 'value', None)!r}>, expected <{want[0]} {want[1]!r}>")
+                    break
+    except Unsupported as e:
+        return None, str(e)
+    return (not bad), "; ".join(bad[:3])
+
+
 class _StoreRead:
     is_store = True
 
@@ -138,19 +186,24 @@ def check(run, prog):
            f"the keyword table swallows the ordinary identifier(s) {extra}: a file using such a name gets different tokens "
            f"(and diagnostics) than the same file with another name", dm.assigns["keywords"][0], size=len(kw))
     pi = prog.method("Lexer", "parse_identifier")
-    uses = [n_ for n_ in walk_fn(pi.node) if isinstance(n_, ast.Name) and n_.id == "keywords"]
-    ok = len(uses) == 2
-    memb = [n_ for n_ in walk_fn(pi.node) if isinstance(n_, ast.Compare) and len(n_.ops) == 1 and isinstance(n_.ops[0], ast.In)
-            and text(n_.comparators[0]) == "keywords" and isinstance(n_.left, ast.Name)]
-    ok = ok and len(memb) == 1
-    if ok:
-        # the membership test follows the accumulation loop
-        loops = [n_ for n_ in walk_fn(pi.node) if isinstance(n_, ast.While)]
-        ok = bool(loops) and loops[-1].lineno < memb[0].lineno
-        other_tables = [n_ for n_ in walk_fn(pi.node) if isinstance(n_, ast.Compare) and any(
-            isinstance(c, (ast.Tuple, ast.List, ast.Set, ast.Dict)) for c in n_.comparators)]
-        ok = ok and not other_tables
+    run.require(pi is not None, "anchor vanished: Lexer.parse_identifier")
+    ok, why = _identifier_membership_observed(prog, kw)
+    if ok is None:
+        run.note(f"R-18.2: parse_identifier not interpreted ({why}); syntactic form used")
+        uses = [n_ for n_ in walk_fn(pi.node) if isinstance(n_, ast.Name) and n_.id == "keywords"]
+        ok = len(uses) == 2
+        memb = [n_ for n_ in walk_fn(pi.node) if isinstance(n_, ast.Compare) and len(n_.ops) == 1 and isinstance(n_.ops[0], ast.In)
+                and text(n_.comparators[0]) == "keywords" and isinstance(n_.left, ast.Name)]
+        ok = ok and len(memb) == 1
+        if ok:
+            # the membership test follows the accumulation loop
+            loops = [n_ for n_ in walk_fn(pi.node) if isinstance(n_, ast.While)]
+            ok = bool(loops) and loops[-1].lineno < memb[0].lineno
+            other_tables = [n_ for n_ in walk_fn(pi.node) if isinstance(n_, ast.Compare) and any(
+                isinstance(c, (ast.Tuple, ast.List, ast.Set, ast.Dict)) for c in n_.comparators)]
+            ok = ok and not other_tables
+        why = ""
     run.ob("R-18.2", f"{pi.key}::exact-membership", ok,
            "parse_identifier does not decide keyword-hood by exact membership of the whole spelling in `keywords` (after the "
-           "maximal run of identifier characters), or special-cases other spellings", pi.node)
+           "maximal run of identifier characters), or special-cases other spellings: " + why, pi.node)
     # no other spelling tables in the rules: string constants compared with .value are covered by R-18.1
